@@ -32,6 +32,8 @@ def finite_vectors(spec, d, bases=(0, 1)):
         if any(x == INF for lst in val.values() for x in lst):
             continue
         yield label, val
+    if d >= 1:
+        yield from valgen.extreme_vectors(spec)
 
 
 def kind_of(spec: NetSpec, key):
@@ -196,6 +198,23 @@ def check_spec(spec: NetSpec, label, st: Stats, tier, palette_seed, light=False)
                     bad(f"C07/casadi-eval/exception/{exc_site(e)}/{type(e).__name__}",
                         f"{sym} evaluating compact={compact}: {exc_text(e)}", phase="casadi-eval", sym=sym, P=P,
                         compact=compact, more_out=more_out)
+    # 4a. every element called "x" (names are free constructor arguments)
+    keys_ = [f"n{i}" for i in range(spec.n)] + spec.link_keys() + [f"O{o.node}" for o in spec.origins] + \
+            [f"D{d_.node}" for d_ in spec.dests]
+    xn = {k_: "x" for k_ in keys_}
+    st.inc("executions", 2)
+    st.inc("transitions", 3)
+    try:
+        nxt, built, raw = np_step(spec, valgen.base_vector(spec, 0), P0, built=build(spec, names=xn))
+        check_np_result("numpy-equal-names", nxt, raw, built, valgen.base_vector(spec, 0), P0, "1d")
+        eng = env.casadi_engine("MX" if light else "SX")
+        built = build(spec, names=xn)
+        built.net.step(engine=eng, **P0)
+        F = eng.to_function(built.net, compact=1, more_out=True, **P0)
+        if F.nnz_in() != sum(n for _, _, n, _ in spec.variables()):
+            bad("C07/to_function/argument-count", f"all elements named x: {F.nnz_in()} scalar inputs", phase="equal-names")
+    except Exception as e:  # noqa: BLE001
+        bad(f"C07/equal-names/exception/{exc_site(e)}/{type(e).__name__}", f"all elements named x: {exc_text(e)}", phase="equal-names")
     # 4b. the same network reached by editing another, already stepped network in place (non-initial state)
     for emode in ("links", "attachments", "replace"):
         for sym in (("SX",) if light else ("SX", "MX")):
